@@ -36,6 +36,13 @@ CLAIMED = {
             'All Length/data pairs reachable in header, body, trailer and groups with contents over all 256 byte values (SOH, =, NUL, checksum look-alikes), '
             'lengths 0..2047; decode of the reference encoding, library encode, re-encode.',
             'Messages are kept below 7000 bytes (the encoder buffer limit is C03\'s subject).', '4/C06'),
+    'C08': ('E1', 'exploration', 'exhaustive int32 sweep (in-process reference snprintf) + property-based testing (Hypothesis) with exact rational oracle for doubles',
+            'Quick: 2 M ints (windows + stride sample) and 40 k generated doubles; thorough: all 2^32 ints (exhaustive for the int half) and 1.2 M doubles over tie, '
+            'near-tie, edge, tiny and random-bit classes at every precision 0..9; correct rounding and parse-back are decided with fractions.Fraction.',
+            'Tie direction is not constrained; parse-back tolerance is the weaker reading of "half a unit in the last place".', '4/C08'),
+    'C09': ('E1', 'exploration', 'property-based testing (Hypothesis; thorough: every day 1970-2099 enumerated) against Python datetime',
+            'Every field rendering/parsing of generated instants (UTCTimestamp 21/17, UTCTimeOnly, UTCDateOnly, LocalMktDate, MonthYear 6/8) and the log renderer at 0..9 decimals.',
+            'TZ=UTC; proleptic Gregorian via datetime.', '4/C09'),
     'C10': ('E1', 'exploration', 'exhaustive enumeration per realm field + property-based testing (Hypothesis) against a linear-scan membership oracle',
             'For every realm field of both schemas: all chars, int windows, string near-misses (prefixes, extensions, case flips, all strings <= 2 chars), '
             'float neighbours enumerated completely; random values on top. Index, description, is_valid and the printed line are compared with set membership / range inclusion.',
@@ -47,6 +54,10 @@ CLAIMED = {
     'C11': ('E1', 'exploration', 'property-based testing (Hypothesis) with differential oracle: clone/copy_legal/move_legal results vs reference encoding',
             'clone(), copy_legal and move_legal results of generated messages (nested groups included) each encode to the reference bytes; source destroyed under ASan after move.',
             'Each object is encoded once.', '4/C11'),
+    'C24': ('E1', 'exploration', 'property-based testing (Hypothesis) on a virtual clock against a week-cyclic reference model + exhaustive weekday-string enumeration',
+            'Generated daily/weekly schedules (all 49 day pairs, utc offsets, direct and via Configuration XML) sampled every 60 s over 3-4 weeks on an interposed clock, '
+            'threaded like activation_service and stateless like the login test; decode_dow over all 866 496 strings of length <= 3.',
+            'Local instants before 1970 are not generated.', '4/C24'),
 }
 
 
